@@ -1493,6 +1493,55 @@ def rule_r13(chk, prog):
               'function', n, 1)
 
 
+# -------------------------------------------------------------------- R14
+def rule_r14(chk, prog):
+    chk.rule('C04.R14', 'the renderers run in the main process on trees the '
+             'mutators built: the text of a leaf is indexed only after it '
+             'is known to be non-empty (a mutator may propose the empty '
+             'leaf, e.g. from the quoted symbol ||)')
+    m = prog.mod('nodeio')
+    n = 0
+    for q, f in m.funcs.items():
+        if 'write' not in q:
+            continue
+        for x in walk_no_nested(f):
+            if not (isinstance(x, ast.Subscript) and isinstance(
+                    x.value, ast.Attribute) and x.value.attr == 'data'
+                    and isinstance(x.slice, ast.Constant)
+                    and isinstance(x.slice.value, int)):
+                continue
+            base = unparse(x.value)
+            facts = facts_at(f, x)
+            # only leaf texts (strings): the node is known to be a leaf
+            owner = unparse(x.value.value)
+            if not any(t == f'{owner}.is_leaf()' and pol
+                       for (t, pol) in facts):
+                continue
+            n += 1
+            ok = any((t == f"{base} == ''" and not pol)
+                     or (t == f"{base} != ''" and pol)
+                     or (t == base and pol)
+                     or (t == f'not {base}' and not pol)
+                     or (t.startswith(f'len({base}) >') and pol)
+                     for (t, pol) in facts)
+            # the test may be part of the same conjunction, to the left
+            p_ = getattr(x, '_parent', None)
+            while p_ is not None and not isinstance(p_, ast.stmt):
+                if isinstance(p_, ast.BoolOp) and isinstance(p_.op, ast.And):
+                    for v in p_.values:
+                        if v is x or any(y is x for y in ast.walk(v)):
+                            break
+                        if unparse(v) in (base, f"{base} != ''"):
+                            ok = True
+                p_ = getattr(p_, '_parent', None)
+            chk.check('C04.R14', f'nodeio.{q}', x, ok,
+                      f'{unparse(x)} is evaluated for a leaf whose text may '
+                      'be empty (no dominating test that it is not): '
+                      'IndexError in the main process while the output file '
+                      'is written', loc=m.loc(x), nontrivial=True)
+    chk.floor('C04.R14', 'indexed leaf texts in the renderers', n, 2)
+
+
 def run(tier):
     prog = Program()
     chk = Check(
@@ -1534,6 +1583,7 @@ def run(tier):
     chk.guard(rule_r10, chk, prog, cg)
     chk.guard(rule_r11, chk, prog, cg)
     chk.guard(rule_r13, chk, prog)
+    chk.guard(rule_r14, chk, prog)
     # an interrupt must reach main()'s handler (status 1): shared with C06.R3
     from . import c06
     sub = Check('C06', 'other', tier, [], [])
